@@ -218,7 +218,9 @@ static rnode* wrap_ctx(int cx, rnode* x) {
  * boundaries in the middle of the ranges (127/128/129, 255..257, 300), at top level and inside an array */
 static const size_t big_lens[] = {511, 512, 1000, 4095, 4096, 32767, 32768, 65535, 65536, 65537, 100000};
 static const size_t counts[] = {0, 1, 2, 3, 4, 5, 6, 7, 8, 9, 10, 11, 12, 13, 14, 15, 16, 17, 18, 19, 20, 21, 22, 23, 24, 25, 26, 27, 28, 29, 30, 31, 32, 33, 40,
-                                63, 64, 65, 100, 127, 128, 129, 200, 255, 256, 257, 300};
+                                63, 64, 65, 100, 127, 128, 129, 200, 255, 256, 257, 300,
+                                /* wide containers: capacity doubling passes 512, 1024, 2048, 4096; slack thresholds sit in between */
+                                511, 512, 513, 1000, 1024, 1025, 1100, 1536, 2048, 2049, 3000, 4096, 4097, 5000};
 #define NLEN (321 + sizeof big_lens / sizeof big_lens[0])
 #define NCNT (sizeof counts / sizeof counts[0])
 /* fourth family: strings filled with one byte value (classic trouble for scanners that back up or skip ahead, for
@@ -279,15 +281,20 @@ void gen_neighbours(const uint8_t* x, size_t n, bool full256, gen_bytes_cb cb, v
   struct rverdict v = ref_decode(x, n, (size_t)1 << 20, RM_LAZY, false, &hs);
   (void)v;
   struct vh_buf b = {0};
-  /* truncations */
-  if (n <= 256) {
+  /* truncations: every offset for short inputs; otherwise every offset inside each head (initial byte + argument bytes),
+   * and for string payloads — where all cuts are equivalent — the first, a middle and the last payload byte */
+  if (n <= 64) {
     for (size_t k = 0; k < n; k++) cb(x, k, ud);
   } else {
-    for (size_t i = 0; i < hs.n; i++) {
-      cb(x, hs.start[i], ud);
-      if (hs.start[i] + 1 < n) cb(x, hs.start[i] + 1, ud);
-      if (hs.end[i] > 0) cb(x, hs.end[i] - 1, ud);
+    size_t step = hs.n > 150 ? hs.n / 150 : 1; /* big items: a spread of heads, not all of them */
+    for (size_t i = 0; i < hs.n; i += step) {
+      unsigned ai = hs.ib[i] & 31;
+      size_t hl = 1 + (ai < 24 ? 0 : ai <= 27 ? (size_t)1 << (ai - 24) : 0);
+      for (size_t k = 0; k <= hl && hs.start[i] + k < n; k++) cb(x, hs.start[i] + k, ud);
+      if (hs.end[i] > hs.start[i] + hl + 2) { cb(x, hs.start[i] + hl + (hs.end[i] - hs.start[i] - hl) / 2, ud); cb(x, hs.end[i] - 1, ud); }
     }
+    if (hs.n) { cb(x, hs.start[hs.n - 1], ud); if (hs.end[hs.n - 1] > 0) cb(x, hs.end[hs.n - 1] - 1, ud); }
+    if (n > 0) cb(x, n - 1, ud);
   }
   static const uint8_t reps[] = {0x00, 0x17, 0x18, 0x19, 0x1a, 0x1b, 0x1c, 0x1f, 0x20, 0x38, 0x3f, 0x40, 0x41, 0x58, 0x5b, 0x5c, 0x5f, 0x60, 0x61, 0x78, 0x7e,
                                  0x7f, 0x80, 0x81, 0x98, 0x9b, 0x9d, 0x9f, 0xa0, 0xa1, 0xb8, 0xbe, 0xbf, 0xc0, 0xd8, 0xdb, 0xdc, 0xdf, 0xe0, 0xf3, 0xf4, 0xf5,
